@@ -4,11 +4,11 @@ set -u
 P=$1; shift
 WT=${TRY_WT:-/tmp/ubtry_wt}
 if [ ! -d "$WT" ]; then git -C /repo worktree add -q --detach "$WT" HEAD; fi
-git -C "$WT" checkout -q -- . ; git -C "$WT" clean -fdq
+git -C "$WT" checkout -q -- . ; git -C "$WT" clean -fdq; git -C "$WT" checkout -q --detach $(git -C /repo rev-parse HEAD)
 git -C "$WT" apply "$P" || exit 3
 cd /verif
 for p in "$@"; do
   UBCHECK_SRC=$WT/src UBCHECK_OUT=/tmp/ubtry_out /venv/bin/python -m ubcheck $p 2>&1 | grep -v "^C.. \[quick\]" | cut -c1-${TRY_W:-400}
   echo "   -> $p rc=${PIPESTATUS[0]}"
 done
-git -C "$WT" checkout -q -- . ; git -C "$WT" clean -fdq
+git -C "$WT" checkout -q -- . ; git -C "$WT" clean -fdq; git -C "$WT" checkout -q --detach $(git -C /repo rev-parse HEAD)
